@@ -41,6 +41,11 @@ func ExecSched(s *Script) *sim.Outcome {
 	for ti := range s.Tasks {
 		ti := ti
 		est += 30 * len(s.Tasks[ti])
+		for _, op := range s.Tasks[ti] {
+			if op.K == "burst" {
+				est += 8 * op.N
+			}
+		}
 		loggers := append([]*zap.Logger{}, w.Loggers...)
 		fns[ti] = func() {
 			n := 0
